@@ -38,7 +38,7 @@ def to_bv(v, w):
         return z3.BitVecVal(v, w)
     if is_z3(v) and z3.is_bool(v):
         return z3.If(v, z3.BitVecVal(1, w), z3.BitVecVal(0, w))
-    raise EngineError("cannot mix Int terms and bit-vectors: %r" % (v,))
+    raise EngineError("cannot mix Int terms and bit-vectors (%s)" % type(v).__name__)
 
 
 def truth(v):
@@ -68,7 +68,7 @@ def truth(v):
             return v != 0
         if z3.is_bv(v):
             return v != z3.BitVecVal(0, v.size())
-    raise EngineError("truthiness of %r not modelled" % (v,))
+    raise EngineError("truthiness of %s not modelled" % type(v).__name__)
 
 
 def _tb(b):
@@ -125,6 +125,11 @@ def ite(c, a, b):
         if isinstance(a2, float) or isinstance(b2, float):
             return z3.If(c, to_real_term(a2), to_real_term(b2))
         return z3.If(c, to_int_term(a2), to_int_term(b2))
+    if k == 'int' and z3.is_add(a2) and a2.num_args() == 2:
+        # ite(c, b + k, b)  ==>  b + ite(c, k, 0): keeps accumulations as sums of independent terms
+        for i_ in (0, 1):
+            if a2.arg(i_).eq(b2) and z3.is_int_value(a2.arg(1 - i_)):
+                return b2 + z3.If(c, a2.arg(1 - i_), z3.IntVal(0))
     return z3.If(c, a2, b2)
 
 
@@ -395,6 +400,14 @@ class Arith(object):
             r = or_disjoint(x, y)
             if r is not None:
                 return r
+            for c_, t_ in ((a, y), (b, x)):
+                if isinstance(c_, int) and not isinstance(c_, bool) and 0 <= c_ < (1 << 64) and bin(c_).count("1") <= 4:
+                    # t | c for a constant with few set bits: add each bit that is not already set
+                    res = t_
+                    for r_ in range(c_.bit_length()):
+                        if (c_ >> r_) & 1:
+                            res = res + (1 << r_) * (1 - (t_ / (1 << r_)) % 2)
+                    return res
             raise EngineError("| on Int terms whose bit ranges are not syntactically disjoint (use the bit-vector model)")
         if op == '^':
             raise EngineError("^ on Int (use the bit-vector model)")
@@ -489,7 +502,25 @@ class Arith(object):
         return {'<': lambda: x < y, '<=': lambda: x <= y, '>': lambda: x > y, '>=': lambda: x >= y}[op]()
 
 
+_memo_lzb, _memo_bb = {}, {}
+
+
+def _memo(cache, fn):
+    def w(t):
+        i = t.get_id()
+        if i in cache and cache[i][0].eq(t):
+            return cache[i][1]
+        r = fn(t)
+        cache[i] = (t, r)
+        return r
+    return w
+
+
 def _low_zero_bits(t):
+    return _lzb(t)
+
+
+def _lzb_impl(t):
     """k such that t is syntactically a multiple of 2^k"""
     if z3.is_int_value(t):
         v = t.as_long()
@@ -507,10 +538,16 @@ def _low_zero_bits(t):
     return 0
 
 
+_lzb = _memo(_memo_lzb, _lzb_impl)
+
 RANGES = {}     # constant name -> (lo, hi) from the declared shape of an input
 
 
 def _bits_bound(t):
+    return _bb(t)
+
+
+def _bb_impl(t):
     """m such that syntactically 0 <= t < 2^m, else None"""
     if z3.is_const(t) and t.decl().kind() == z3.Z3_OP_UNINTERPRETED:
         r = RANGES.get(t.decl().name())
@@ -541,12 +578,50 @@ def _bits_bound(t):
     return None
 
 
+_bb = _memo(_memo_bb, _bb_impl)
+_upper_cache = {}
+
+
+def _upper(t):
+    """an integer u with 0 <= t <= u established syntactically (interval arithmetic), else None"""
+    i = t.get_id()
+    if i in _upper_cache and _upper_cache[i][0].eq(t):
+        return _upper_cache[i][1]
+    r = None
+    if z3.is_int_value(t):
+        v = t.as_long()
+        r = v if v >= 0 else None
+    elif z3.is_const(t) and t.decl().kind() == z3.Z3_OP_UNINTERPRETED:
+        rg = RANGES.get(t.decl().name())
+        if rg is not None and rg[0] is not None and rg[1] is not None and rg[0] >= 0:
+            r = int(rg[1])
+    elif z3.is_app_of(t, z3.Z3_OP_MOD) and z3.is_int_value(t.arg(1)) and t.arg(1).as_long() > 0:
+        r = t.arg(1).as_long() - 1
+    elif z3.is_app_of(t, z3.Z3_OP_ITE):
+        a, b = _upper(t.arg(1)), _upper(t.arg(2))
+        r = max(a, b) if a is not None and b is not None else None
+    elif z3.is_add(t):
+        us = [_upper(c) for c in t.children()]
+        r = sum(us) if all(u is not None for u in us) else None
+    elif z3.is_mul(t) and t.num_args() == 2:
+        us = [_upper(c) for c in t.children()]
+        r = us[0] * us[1] if all(u is not None for u in us) else None
+    elif z3.is_app_of(t, z3.Z3_OP_IDIV) and z3.is_int_value(t.arg(1)) and t.arg(1).as_long() > 0:
+        u = _upper(t.arg(0))
+        r = u // t.arg(1).as_long() if u is not None else None
+    _upper_cache[i] = (t, r)
+    return r
+
+
 def or_disjoint(x, y):
     """x | y == x + y when the set bits cannot overlap (checked syntactically)"""
     for a, b in ((x, y), (y, x)):
         zb = _low_zero_bits(a)
         bb = _bits_bound(b)
         if bb is not None and bb <= zb:
+            return a + b
+        ub = _upper(b)
+        if ub is not None and 0 < zb < 10 ** 5 and ub < (1 << zb):
             return a + b
     return None
 
@@ -619,6 +694,12 @@ def equal(a, b):
     if isinstance(a, SeqV) or isinstance(b, SeqV):
         from .seqs import seq_equal
         return seq_equal(a, b)
+    if isinstance(a, ObjV) and "__id__" in a.fields and not isinstance(b, ObjV):
+        return equal(a.fields["__id__"], b)
+    if isinstance(b, ObjV) and "__id__" in b.fields and not isinstance(a, ObjV):
+        return equal(a, b.fields["__id__"])
+    if isinstance(a, ObjV) and isinstance(b, ObjV) and "__id__" in a.fields and "__id__" in b.fields:
+        return equal(a.fields["__id__"], b.fields["__id__"])
     if isinstance(a, ObjV) and isinstance(b, ObjV):
         if a.cls != b.cls or set(a.fields) != set(b.fields):
             return False
@@ -685,4 +766,4 @@ def merge(c, a, b):
     try:
         return ite(c, a, b)
     except (EngineError, z3.Z3Exception, KeyError, TypeError):
-        raise EngineError("cannot merge %r and %r" % (a, b))
+        raise EngineError("cannot merge %s and %s" % (type(a).__name__, type(b).__name__))
